@@ -275,6 +275,8 @@ static void tlv_serialize_checks(const Node *t, const unsigned char *E, const un
 			size_t l = (size_t)-1; int rc = KSI_TLV_writeBytes(tlv, NULL, 0, &l, opt);
 			vh_eval++;
 			if (rc == KSI_OK && !refuse && l != explen) vh_viol("tlv.serialize:null-buffer-length-query:wrong-length", tdesc, "KSI_TLV_writeBytes(NULL,0,opt=%s) answers %zu, reference length is %zu", optname(opt), l, explen);
+			else if (rc != KSI_OK && !refuse) vh_viol("tlv.serialize:null-buffer-length-query:refused", tdesc, "KSI_TLV_writeBytes(NULL,0,opt=%s) of a tree that fits (reference length %zu) is refused: rc=0x%x", optname(opt), explen, rc);
+			else if (rc == KSI_OK && refuse) vh_viol("tlv.serialize:null-buffer-length-query:oversize-answered", tdesc, "KSI_TLV_writeBytes(NULL,0,opt=%s) of a tree that does not fit the length field answers %zu", optname(opt), l);
 			else vh_count(rc == KSI_OK ? "null_query_ok" : "null_query_refused", 1);
 		}
 	}
